@@ -47,10 +47,10 @@ static bool prefixes_ok(std::vector<LD> const &f, LD start, bool square_at_end)
 }
 static LD gam(unsigned k) { return (k * U_) / (1 - k * U_); }
 
-enum { L_PLU, L_LDL, L_LLT, L_ROW_EXCHANGE, L_SINGULAR_CLASS, L_MUST_SUCCEED, L_BAD_SCALE, L_NEAR_SINGULAR, L_GLOBAL_SCALE, L_LAST_STEP_SWAP, L_HILBERT, L_N_GE_8, L_FAILED_OK, L_PERM_NOT_INVOLUTION, L_DET_UNREPRESENTABLE, L_LARGE_ORDER, L_EXTREME_SCALE, L_ZERO_DIAGONAL, L_DUP_ADJACENT };
+enum { L_PLU, L_LDL, L_LLT, L_ROW_EXCHANGE, L_SINGULAR_CLASS, L_MUST_SUCCEED, L_BAD_SCALE, L_NEAR_SINGULAR, L_GLOBAL_SCALE, L_LAST_STEP_SWAP, L_HILBERT, L_N_GE_8, L_FAILED_OK, L_PERM_NOT_INVOLUTION, L_DET_UNREPRESENTABLE, L_LARGE_ORDER, L_EXTREME_SCALE, L_ZERO_DIAGONAL, L_DUP_ADJACENT, L_NEAR_TIE_PIVOT };
 static char const *const labels[] = {"plu", "ldl", "llt", "row_exchange_happened", "exactly_singular_class", "robustly_nonsingular_class", "rows_cols_scaled_2^k",
                                      "near_singular", "global_scale_2^s", "exchange_at_last_step", "hilbert_like", "n_ge_8", "factorization_reported_failure",
-                                     "permutation_not_self_inverse", "determinant_not_representable", "order_13_to_65_pattern_filled", "symmetric_scaling_over_nearly_the_whole_exponent_range", "determinant_family_on_a_given_factor_with_zero_diagonal", "ldl_adjacent_rows_and_columns_bit_identical", nullptr};
+                                     "permutation_not_self_inverse", "determinant_not_representable", "order_13_to_65_pattern_filled", "symmetric_scaling_over_nearly_the_whole_exponent_range", "determinant_family_on_a_given_factor_with_zero_diagonal", "ldl_adjacent_rows_and_columns_bit_identical", "pivot_candidates_agree_to_2^-21_or_closer", nullptr};
 static char const *const metrics[] = {"max_reconstruction_ratio", "max_solve_ratio", "max_inverse_ratio", "max_det_ratio", "max_lndet_ratio", nullptr};
 static uint8_t const dict[] = {3, 4, 7, 8, 9, 10, 11};
 static vp_info const info = {"C08", "factor", "", labels, metrics, 700, dict, sizeof(dict)};
@@ -89,7 +89,7 @@ static bool finite_all(R const *p, size_t n)
 // general matrix classes; returns class id. Fills M (n x n).
 static int gen_general(Tape &t, Ctx &cx, unsigned n, std::vector<R> &M, int &expect /* 0 none, 1 must fail, 2 must succeed */)
 {
-    int cls = t.u8() % 13;
+    int cls = t.u8() % 14;
     expect = 0;
     M.assign(size_t(n) * n, R(0));
     auto at = [&](unsigned i, unsigned j) -> R & { return M[size_t(i) * n + j]; };
@@ -199,6 +199,24 @@ static int gen_general(Tape &t, Ctx &cx, unsigned n, std::vector<R> &M, int &exp
         for (unsigned i = 0; i < n; ++i) { for (unsigned j = 0; j < n; ++j) { at(i, j) = blk[i] == blk[j] ? std::ldexp(R(rd_int(t, 9)), sx[i] + sx[j]) : R(0); } }
         cx.label(L_BAD_SCALE);
         cx.label(L_EXTREME_SCALE);
+        break; }
+    case 13: {
+        // near-ties in the pivot search: in the first column (and, through the elimination, in later ones) two candidates agree
+        // to a relative 2^-21 .. 2^-50 without being equal, in either order and with either sign; the larger one has to win
+        for (auto &v : M) { v = rd_real(t, -3, 3); }
+        if (n >= 2)
+        {
+            unsigned i1 = t.u8() % n, i2 = t.u8() % n;
+            if (i2 == i1) { i2 = (i1 + 1) % n; }
+            R big = 0;
+            for (unsigned i = 0; i < n; ++i) { big = std::fmax(big, std::fabs(at(i, 0))); }
+            R top = big * R(1.5) + R(1);
+            uint8_t kb = t.u8();
+            R delta = std::ldexp(R(1), -21 - int(kb % 30));
+            at(i1, 0) = (kb & 64) ? -top : top;
+            at(i2, 0) = ((kb & 128) ? -top : top) * (R(1) - delta);
+            cx.label(L_NEAR_TIE_PIVOT);
+        }
         break; }
     default:
         for (auto &v : M) { v = rd_real(t, -20, 20); }
